@@ -2056,6 +2056,20 @@ impl Fs {
 
         // Overlay pending writes (need to check the content path)
         for op in &self.pending {
+            // A pending truncation discards everything at or past the new
+            // length: whatever the file is extended with afterwards reads
+            // back as zeros, exactly as it will once the ops are flushed.
+            if let PendingOp::SetLen {
+                path: p,
+                len: new_len,
+                ..
+            } = op
+            {
+                if p == &content_path || self.path_renamed_to(p, &content_path) {
+                    let keep = new_len.saturating_sub(offset).min(to_read as u64) as usize;
+                    buf[keep..to_read].fill(0);
+                }
+            }
             if let PendingOp::Write {
                 path: p,
                 offset: write_off,
